@@ -28,6 +28,9 @@ CHECKS = {
  'C34': dict(cat='other', tech='deductive: integer postconditions on the real util.Time (acceptance range, component decomposition, time-of-day conversion, comparisons), util.Date (day count, seconds, floor division for pre-1970 instants), uuid_from_time/min_uuid_from_time/max_uuid_from_time/unix_time_from_uuid1 over a symbolic instant, node and clock sequence (field packing, version/variant bits, Cassandra signed-byte bounds) with float products as reals; BOUNDED (exhaustive in the thorough tier) calendar and string round trips and binary64 time-uuid round trips',
              text='Mixed: the integer clauses (Time accepts exactly one day of nanoseconds and decomposes/recomposes exactly; Date day counts; time-uuid timestamp, node, clock sequence, version bits and the min/max bounds in Cassandra order for every node and clock sequence) are proved for all values, with float products treated as real arithmetic (A-REAL). Date <-> yyyy-mm-dd for every day of years 1..9999 (thorough: every day; quick: every 13th), Time <-> string, and the binary64 behaviour of the uuid helpers over the whole 60-bit range are bounded stand-ins.',
              ref='DESIGN.md §4 C34', note='Trusted base: pyvc (see other entries), A-REAL for three float operations in the uuid helpers, E-DATETIME / E-UUID library contracts; the bounded part is exploration, not proof.'),
+ 'C27': dict(cat='proof', tech='deductive: string / regular-language postconditions (z3 strings with the cvc5 and z3 4.8 fall-backs) on the real escape_name, maybe_escape_name, is_valid_name, protect_name(s), protect_value, cql_quote and the USE statement of Connection.set_keyspace_blocking/async for every unicode string; reserved-word set inclusion; bounded round trip through an independent CQL lexer for lemma L1',
+             text='For every string: the quoted forms are exactly quote + text with every quote doubled + quote; a name is left bare only if it is in [a-z][a-z0-9_]* (reads back unchanged) and is not one of Cassandra\'s reserved words (transcribed list; every one of them is in the driver\'s reserved set). That such a quoted form lexes back to the original (an induction over strings) is a bounded stand-in: exhaustive over small alphabets through the real functions and an independent lexer.',
+             ref='DESIGN.md §4 C27'),
  'C31': dict(cat='proof', tech='deductive: lock-invariant proof of MonotonicTimestampGenerator.__call__ for arbitrary clock and history + frame scan',
              text='Lock invariant (all returned timestamps <= last) proved preserved by __call__ for an arbitrary prior state and clock reading; '
                   'strict monotonicity across threads follows for lock-respecting schedules; unprotected reads/writes of `last` fail an obligation.',
